@@ -308,25 +308,47 @@ func (s *Solver) PopCheck() { s.send("(pop 1)") }
 // Returns the raw value strings.
 func (s *Solver) GetValues(ts []*Term) []string {
 	res := make([]string, len(ts))
-	for i, t := range ts {
-		if t.IsConst() {
-			res[i] = constLit(t)
+	// batches of up to 200 terms per get-value
+	for from := 0; from < len(ts); from += 200 {
+		to := from + 200
+		if to > len(ts) {
+			to = len(ts)
+		}
+		var idx []int
+		var sb strings.Builder
+		sb.WriteString("(get-value (")
+		for i := from; i < to; i++ {
+			t := ts[i]
+			if t.IsConst() {
+				res[i] = constLit(t)
+				continue
+			}
+			if !s.defined[t.ID] && t.Op != OVar {
+				res[i] = "?undefined"
+				continue
+			}
+			if t.Op == OVar && !s.declVar[t.Name] {
+				res[i] = "?undeclared"
+				continue
+			}
+			idx = append(idx, i)
+			sb.WriteByte(' ')
+			sb.WriteString(t.ref())
+		}
+		sb.WriteString("))")
+		if len(idx) == 0 {
 			continue
 		}
-		s.define(t)
-		s.send(fmt.Sprintf("(get-value (%s))", t.ref()))
+		s.send(sb.String())
 		lines := s.roundTrip()
-		txt := strings.Join(lines, " ")
-		// format: ((name value))
-		txt = strings.TrimSpace(txt)
-		if strings.HasPrefix(txt, "((") && strings.HasSuffix(txt, "))") {
-			inner := txt[2 : len(txt)-2]
-			// strip the leading term reference
-			ref := t.ref()
-			inner = strings.TrimSpace(strings.TrimPrefix(inner, ref))
-			res[i] = inner
-		} else {
-			res[i] = "?" + txt
+		txt := strings.TrimSpace(strings.Join(lines, " "))
+		vals := parseValuePairs(txt)
+		for k, i := range idx {
+			if k < len(vals) {
+				res[i] = vals[k]
+			} else {
+				res[i] = "?" + txt
+			}
 		}
 	}
 	return res
@@ -360,4 +382,49 @@ func parseBVValue(v string) (uint64, bool) {
 		return r, err == nil
 	}
 	return 0, false
+}
+
+// parseValuePairs parses "((t1 v1) (t2 v2) …)" and returns the values in order.
+func parseValuePairs(txt string) []string {
+	var out []string
+	depth := 0
+	start := -1
+	for i := 0; i < len(txt); i++ {
+		switch txt[i] {
+		case '(':
+			depth++
+			if depth == 2 {
+				start = i + 1
+			}
+		case ')':
+			if depth == 2 && start >= 0 {
+				pair := strings.TrimSpace(txt[start:i])
+				// split off the first token (the term reference)
+				j := 0
+				if strings.HasPrefix(pair, "(") {
+					// reference itself parenthesised (should not happen: refs are symbols)
+					d := 0
+					for j = 0; j < len(pair); j++ {
+						if pair[j] == '(' {
+							d++
+						} else if pair[j] == ')' {
+							d--
+							if d == 0 {
+								j++
+								break
+							}
+						}
+					}
+				} else {
+					for j < len(pair) && pair[j] != ' ' {
+						j++
+					}
+				}
+				out = append(out, strings.TrimSpace(pair[j:]))
+				start = -1
+			}
+			depth--
+		}
+	}
+	return out
 }
